@@ -30,6 +30,8 @@ def run(R):
     recs = record_configs(R, labs)
     for lab in labs:
         files = recs[lab] + ovl.record(R, "internal/elligator", EFILES, "TestVerifRecC14", lab, {"VERIF_N": 16 if R.tier == "quick" else 400})
+        # everything behind expand_message on crafted uniform bytes (one or both field elements exceptional)
+        files += ovl.record(R, "primitives/h2c", ["primitives/h2c/zz_verif_c14_test.go"], "TestVerifRecC14Maps", lab, {"VERIF_N": 2 if R.tier == "quick" else 60})
         R.count_events(files)
         rej = R.validate(MODULE, files, label=lab, timeout=7200)
         for f, ln, e in rej:
